@@ -3,6 +3,11 @@
 P="$1"; ID="$2"; TIER="${3:-quick}"
 cd /repo || exit 2
 if [ -n "$(git status --porcelain)" ]; then echo "/repo is dirty"; exit 2; fi
-trap 'git -C /repo checkout -q -- . ' EXIT INT TERM
-git apply "$P" 2>/dev/null || git apply -3 "$P" 2>/dev/null || patch -p1 -s < "$P" || { echo "PATCH DOES NOT APPLY"; exit 3; }
+cleanup() { git -C /repo reset -q --hard HEAD; rm -f /repo/*.rej /repo/*.orig; }
+trap cleanup EXIT INT TERM
+if ! git apply "$P" 2>/dev/null; then
+  git apply -3 "$P" >/dev/null 2>&1
+  if [ -n "$(git diff --name-only --diff-filter=U)" ] || [ -z "$(git status --porcelain)" ]; then echo "PATCH DOES NOT APPLY"; exit 3; fi
+  git reset -q
+fi
 cd /verif && ./check "$ID" "$TIER" 2>&1 | grep -E "VIOLATION|KNOWN|signature|what:|^\[C|HARNESS" | head -12
